@@ -28,3 +28,58 @@ Theorem C02_projection_amplitudes :
   get (c0 O) (project O v qs k) idx = if outcome_of qs idx =? k then get (c0 O) v idx else c0 O.
 Proof. exact @project_get. Qed.
 Print Assumptions C02_projection_amplitudes.
+
+(* ---------------- real-number level ---------------- *)
+From Coq Require Import Reals Lra.
+From QI Require Import Proofs.C12b Proofs.C02b Run.RInst.
+
+(* the inverse-CDF loop with break: for probabilities p_i >= 0 summing to 1 and a draw 0 <= r < 1, the sampled outcome
+   is k exactly when r lies in [p_0+..+p_{k-1}, p_0+..+p_k): an interval of length p_k; the last-bin fallback is unreachable *)
+Theorem C02_sampling_interval :
+  forall (ps : list R) (r : R) (k : nat),
+  Forall (fun p => (0 <= p)%R) ps -> rsum ps = 1%R -> (0 <= r < 1)%R ->
+  (sample rops ps r = k /\ (k < length ps)%nat) <->
+  ((k < length ps)%nat /\ (rsum (firstn k ps) <= r < rsum (firstn (S k) ps))%R).
+Proof. exact sample_interval. Qed.
+Print Assumptions C02_sampling_interval.
+
+(* the outcome probabilities partition the squared norm of the state *)
+Theorem C02_probabilities_sum_to_norm :
+  forall (v : list (Scalar.C (T:=R))) (qs : list N), rsum (probs rops v qs) = norm2_vec rops v.
+Proof. exact probs_sum_to_norm. Qed.
+Print Assumptions C02_probabilities_sum_to_norm.
+
+(* Measuring ANY nonzero state (normalised or not) with ANY draw in [0,1) succeeds; the outcome k is the one whose Born
+   interval (length ||P_k psi||^2 / ||psi||^2, in outcome order) contains the draw, it has positive probability, the
+   reported bits are those of k, and the new state is P_k psi / ||P_k psi|| with the register width unchanged. *)
+Theorem C02_measure_born_and_collapse :
+  forall (of_N : N -> R) (eps : R), (forall n, (0 <= of_N n)%R) -> (0 <= eps)%R ->
+  forall n (st : state (T:=R)) (qs : list N) (r : R),
+  wf n st -> measure_args n (actual_qubits n qs) = None -> norm2_vec rops (vec st) <> 0%R -> (0 <= r < 1)%R ->
+  let aq := actual_qubits n qs in
+  let weight k := (norm2_vec rops (project rops (vec st) aq k) / norm2_vec rops (vec st))%R in
+  let ws := map weight (Nrange (2 ^ len aq)) in
+  exists k : nat,
+    (k < length ws)%nat /\ (rsum (firstn k ws) <= r < rsum (firstn (S k) ws))%R /\ (0 < weight (N.of_nat k))%R /\
+    measure_comp rops of_N eps st qs r =
+      Ok (outcome_bits (len aq) (N.of_nat k),
+          mkState n (map (fun a => cdivr rops a (sqrt (norm2_vec rops (project rops (vec st) aq (N.of_nat k))))) (project rops (vec st) aq (N.of_nat k)))).
+Proof. exact measure_comp_real. Qed.
+Print Assumptions C02_measure_born_and_collapse.
+
+(* measure_n: every shot is measure() of the SAME unmodified input with its own draw (no dependence on scheduling);
+   zero shots is the documented error *)
+Theorem C02_measure_n_shots :
+  forall (T : Type) (O : sops T) (of_N : N -> T) (eps tol : T) par b (st : state (T:=T)) qs (d : T) (ds : list T),
+  measure_args (nq st) (actual_qubits (nq st) qs) = None ->
+  measure_n O of_N eps tol par b st qs (d :: ds) =
+  collect (map (fun r => measure O of_N eps tol par b st (actual_qubits (nq st) qs) r) (d :: ds)) /\
+  measure_n O of_N eps tol par b st qs [] = Err (InvalidNumberOfMeasurements 0).
+Proof. intros. unfold measure_n. rewrite H. split; reflexivity. Qed.
+Print Assumptions C02_measure_n_shots.
+
+Example C02_nonvacuous :
+  let v := [(3, 0); (0, 4); (0, 0); (5, 12)]%Z in
+  probs zops v [1; 0]%N = [9; 0; 16; 169]%Z /\ probs zops v [0]%N = [9; 185]%Z /\
+  project zops v [1; 0]%N 2%N = [(0, 0); (0, 4); (0, 0); (0, 0)]%Z /\ outcome_bits 2%N 2%N = [false; true].
+Proof. vm_compute. repeat split; reflexivity. Qed.
